@@ -9,7 +9,7 @@ from vlib import Obl
 
 LEVEL = "proof"
 FUNCTIONS = ["ring_read_size", "ring_write_size", "ring_write", "ring_read", "ring_read_vector",
-             "ThreadLink::writeArray", "ThreadLink::raw_write", "ThreadLink::hasNext", "ThreadLink::read"]
+             "ThreadLink::write", "ThreadLink::writeArray", "ThreadLink::raw_write", "ThreadLink::hasNext", "ThreadLink::read"]
 TRUSTED = ["CBMC 6.11.0 (goto-cc, goto-instrument --dfcc, cbmc; built-in SAT back end); CBMC's built-in memcpy (array copy) in the content obligations",
            "extraction rules of tools/extract.py as listed in infrastructure_notes (atomic: std::atomic<off_t> -> off_t DROPS atomicity and ordering on purpose)",
            "x86-64 LP64 bit-vector semantics; -DNDEBUG as shipped (the asserts in thread-link.cpp are compiled out)"]
@@ -17,7 +17,7 @@ ASSUMPTIONS = [
     "PAPER STEP (not machine-checked): one thread runs only writer operations, one only reader operations; the three indices are std::atomic "
     "with seq_cst accesses, so copy-then-publish program order is what the other thread observes; per-operation contracts + frames + "
     "stale-snapshot lemmas + publication order then give linearizability to the sequential FIFO",
-    "interleavings are not enumerated; weaker memory models are not covered; ThreadLink::write (variadic) has the same body as writeArray and is not separately verified",
+    "interleavings are not enumerated; weaker memory models are not covered",
     "index/frame obligations: ring size 2..2^30; content obligations: ring size bounded as stated per obligation (built-in memcpy)",
     "ThreadLink::read is verified under the rely condition that the message at the head is <= MaxMsg, which is the guarantee proved for every writer operation (raw_write/writeArray)",
     "rtosc_message_ring_length / rtosc_amessage / rtosc_message_length are replaced by their contracts (proved under C07 / C02)",
@@ -66,7 +66,7 @@ def prepare(ctx):
     extract.write(ctx, "thread_link_ring_obs.inc", "\n".join(obs) + "\n")
     # ---- ThreadLink methods
     meths = []
-    for name, occ, ret in (("writeArray", 1, "void"), ("raw_write", 1, "void"), ("hasNext", 1, "bool"), ("read", 1, "msg_t")):
+    for name, occ, ret in (("write", 1, "void"), ("writeArray", 1, "void"), ("raw_write", 1, "void"), ("hasNext", 1, "bool"), ("read", 1, "msg_t")):
         t = extract.cut_function(src, name, occurrence=occ, qualifier="ThreadLink")
         t = extract.apply_rules(t, [
             ("method", r"^%s\s+ThreadLink::%s\(" % (ret, name), "%s ThreadLink_%s(struct ThreadLink *self, " % (ret, name), 1),
@@ -117,6 +117,8 @@ def obligations(ctx):
        replace=["ring_write_size", "ring_write", "rtosc_message_length"], defs=tl)
     ob("ThreadLink_writeArray.contract", "h_tl_writeArray", "ThreadLink_writeArray",
        replace=["ring_write_size", "ring_write", "rtosc_amessage"], defs=tl)
+    ob("ThreadLink_write.contract", "h_tl_write", "ThreadLink_write",
+       replace=["ring_write_size", "ring_write", "rtosc_vmessage"], defs=tl)
     ob("ThreadLink_read.contract", "h_tl_read", "ThreadLink_read",
        replace=["ring_read_vector", "ring_read", "rtosc_message_ring_length"], defs=tl)
     # interference: the other thread moves ITS index (within its contract) at every point where this side loads it
